@@ -1007,6 +1007,90 @@ CALL_PATS = ["self.evaluate_sum(_W['summand'], _W['lower'], _W['upper'], _W['sum
              "self.evaluate_sum(_W['summand'], _W['lower'], _W['upper'], _W['summation_variable'], _VS, _FS)"]
 
 
+def _from_instructor_vars(fn, bl):
+    """The list `bl` is built from config['instructor_vars'] (filtered loop + append, comprehension, list(...))."""
+    for f in walk_own(fn):
+        if isinstance(f, ast.For) and lib.is_config(f.iter, 'instructor_vars') and isinstance(f.target, ast.Name):
+            if X.find_stmts(f, "%s.append(%s)" % (bl, f.target.id), own=False):
+                return True
+    for v in lib.assigned_value(fn, bl):
+        if isinstance(v, (ast.ListComp, ast.SetComp, ast.GeneratorExp)) and len(v.generators) == 1 \
+                and lib.is_config(v.generators[0].iter, 'instructor_vars') and isinstance(v.generators[0].target, ast.Name) \
+                and X.is_name(v.elt, v.generators[0].target.id):
+            return True
+        if isinstance(v, ast.Call) and isinstance(v.func, ast.Name) and v.func.id in ('list', 'set', 'tuple') and len(v.args) == 1 \
+                and (lib.is_config(v.args[0], 'instructor_vars') or (
+                    isinstance(v.args[0], (ast.GeneratorExp, ast.ListComp)) and lib.is_config(v.args[0].generators[0].iter, 'instructor_vars'))):
+            return True
+    return False
+
+
+def _scrub_manager(idx, fi, call):
+    """If `call` sits in `with M(scope, names) [as t]:` where M is a class whose __enter__ removes the entries listed in
+    its names attribute from its scope attribute, return {'with', 'scope', 'names', 'target', 'same'} (same: __enter__
+    returns the very dict it scrubbed), else None."""
+    orig = getattr(fi, 'original', fi)
+    p_ = parent(call)
+    while p_ is not None and not isinstance(p_, (ast.FunctionDef, ast.Lambda)):
+        if isinstance(p_, ast.With):
+            for item in p_.items:
+                ce = item.context_expr
+                if not isinstance(ce, ast.Call):
+                    continue
+                targets, how = idx.resolve_call(orig, ce)
+                classes = [t[1] for t in targets if isinstance(t, tuple) and t[0] == 'class']
+                if not classes:
+                    continue
+                init, enter = idx.lookup(classes[0], '__init__'), idx.lookup(classes[0], '__enter__')
+                if init is None or enter is None:
+                    continue
+                try:
+                    bound = X.bind_call(ce, init.params, skip_self=True)
+                except AnalysisError:
+                    continue
+                attr_of = {}           # attribute of self -> constructor argument expression
+                for st_, b_ in X.find_stmts(init.node, "self._A = _P"):
+                    pass
+                for n in walk_own(init.node):
+                    if isinstance(n, ast.Assign) and len(n.targets) == 1 and isinstance(n.targets[0], ast.Attribute) \
+                            and X.is_name(n.targets[0].value, 'self') and isinstance(n.value, ast.Name) and n.value.id in bound:
+                        attr_of[n.targets[0].attr] = bound[n.value.id]
+                # removal inside __enter__: self.<scope>.pop(k) / del self.<scope>[k] for k in self.<names>
+                rem = None
+                for n in ast.walk(enter.node):
+                    tgt = None
+                    if isinstance(n, ast.Call) and isinstance(n.func, ast.Attribute) and n.func.attr == 'pop' \
+                            and isinstance(n.func.value, ast.Attribute) and X.is_name(n.func.value.value, 'self'):
+                        tgt = n.func.value.attr
+                    if isinstance(n, ast.Delete) and n.targets and isinstance(n.targets[0], ast.Subscript) \
+                            and isinstance(n.targets[0].value, ast.Attribute) and X.is_name(n.targets[0].value.value, 'self'):
+                        tgt = n.targets[0].value.attr
+                    if tgt is not None:
+                        # the iteration domain of the enclosing loop / comprehension
+                        q_ = parent(n)
+                        dom = None
+                        while q_ is not None and q_ is not enter.node:
+                            if isinstance(q_, ast.For):
+                                dom = q_.iter
+                                break
+                            if isinstance(q_, (ast.DictComp, ast.ListComp, ast.SetComp, ast.GeneratorExp)):
+                                dom = q_.generators[0].iter
+                                break
+                            q_ = parent(q_)
+                        if isinstance(dom, ast.Attribute) and X.is_name(dom.value, 'self'):
+                            rem = (tgt, dom.attr)
+                if rem is None or rem[0] not in attr_of or rem[1] not in attr_of:
+                    continue
+                rets = lib.returns_of(enter.node)
+                same = len(rets) == 1 and isinstance(rets[0].value, ast.Attribute) and X.is_name(rets[0].value.value, 'self') \
+                    and rets[0].value.attr == rem[0]
+                tname = item.optional_vars.id if isinstance(item.optional_vars, ast.Name) else None
+                return {'with': p_, 'scope': attr_of[rem[0]], 'names': attr_of[rem[1]], 'target': tname, 'same': same,
+                        'cls': classes[0].name}
+        p_ = parent(p_)
+    return None
+
+
 def d3_author(ctx, idx):
     r = ctx.rule('D3.AUTHOR', "gen_evaluations: author's sum guarded (MITxError -> ConfigError), student's not; instructor variables "
                  "deleted in between and reloaded per sample; results in (author, student, functions) roles, also into compare_evaluations", floor=9)
@@ -1035,6 +1119,11 @@ def d3_author(ctx, idx):
             raise AnalysisError('gen_evaluations: author and student evaluate_sum calls not both found')
         (ac, ab), (sc, sb) = roles['author'], roles['student']
         r.ok('gen_evaluations: argument roles of evaluate_sum', "summand / limits / variable of the answer and of the submission", lib.loc(fi, ac))
+        mgr = _scrub_manager(idx, fi, sc)
+        if mgr is not None and isinstance(sb['_VS'], ast.Name) and sb['_VS'].id == mgr['target'] and mgr['same'] \
+                and isinstance(mgr['scope'], ast.Name):
+            sb = dict(sb)
+            sb['_VS'] = mgr['scope']          # `as` target of a manager whose __enter__ returns the dict it scrubbed
         same_scope = nf.equal(ab['_VS'], sb['_VS']) and isinstance(ab['_VS'], ast.Name) and nf.equal(ab['_FS'], sb['_FS'])
         if not same_scope:
             raise AnalysisError('gen_evaluations: the two calls use different scope objects')
@@ -1070,7 +1159,19 @@ def d3_author(ctx, idx):
         dels = [s for s in walk_own(fn) if (isinstance(s, ast.Delete) and any(isinstance(t, ast.Subscript) and X.is_name(t.value, VS) for t in s.targets))
                 or (isinstance(s, ast.Expr) and isinstance(s.value, ast.Call) and isinstance(s.value.func, ast.Attribute)
                     and s.value.func.attr == 'pop' and X.is_name(s.value.func.value, VS))]
-        if not dels:
+        if not dels and mgr is not None and X.is_name(mgr['scope'], VS):
+            # the deletion is done by the context manager around the student's call
+            r.check(X.passes_between(fi, ac, [mgr['with']], sc), construct, '%s.__enter__ removes the names for the duration of the block'
+                    % mgr['cls'], "a path reaches the student's evaluate_sum without entering the scrubbing block", lib.loc(fi, mgr['with']))
+            bl = mgr['names'].id if isinstance(mgr['names'], ast.Name) else None
+            if bl is not None and _from_instructor_vars(fn, bl):
+                r.ok("gen_evaluations: the deleted names come from config['instructor_vars']", bl, lib.loc(fi, mgr['with']))
+            elif lib.is_config(mgr['names'], 'instructor_vars'):
+                r.ok("gen_evaluations: the deleted names come from config['instructor_vars']", 'instructor_vars', lib.loc(fi, mgr['with']))
+            else:
+                r.undecided("gen_evaluations: the deleted names come from config['instructor_vars']", 'origin of the deleted keys not recognised',
+                            lib.loc(fi, mgr['with']))
+        elif not dels:
             X.absent(r, construct, 'nothing is ever removed from `%s`: the student\'s summand and limits can use the instructor-only variables' % VS,
                      lib.loc(fi, sc), expected='for key in var_blacklist: del varlist[key]',
                      understood=X.only_calls([fn], KNOWN3) and not any(isinstance(x, ast.Assign) and X.is_name(x.targets[0], VS) and
@@ -1082,19 +1183,7 @@ def d3_author(ctx, idx):
             bl = None
             if isinstance(loop, ast.For) and isinstance(loop.iter, ast.Name):
                 bl = loop.iter.id
-                for f in walk_own(fn):
-                    if isinstance(f, ast.For) and lib.is_config(f.iter, 'instructor_vars') and isinstance(f.target, ast.Name):
-                        if X.find_stmts(f, "%s.append(%s)" % (bl, f.target.id), own=False):
-                            src_ok = True
-                for v in lib.assigned_value(fn, bl):
-                    if isinstance(v, (ast.ListComp, ast.SetComp, ast.GeneratorExp)) and len(v.generators) == 1 \
-                            and lib.is_config(v.generators[0].iter, 'instructor_vars') and isinstance(v.generators[0].target, ast.Name) \
-                            and X.is_name(v.elt, v.generators[0].target.id):
-                        src_ok = True
-                    if isinstance(v, ast.Call) and isinstance(v.func, ast.Name) and v.func.id in ('list', 'set', 'tuple') and len(v.args) == 1 \
-                            and (lib.is_config(v.args[0], 'instructor_vars') or (
-                                isinstance(v.args[0], (ast.GeneratorExp, ast.ListComp)) and lib.is_config(v.args[0].generators[0].iter, 'instructor_vars'))):
-                        src_ok = True
+                src_ok = _from_instructor_vars(fn, bl)
             elif isinstance(loop, ast.For) and lib.is_config(loop.iter, 'instructor_vars'):
                 src_ok = True
             between = X.passes_between(fi, ac, [loop if isinstance(loop, ast.For) and loop is not X.enclosing_loop(ac) else dels[0]], sc)
@@ -1238,9 +1327,13 @@ def d4_order(ctx, idx):
         if not (isinstance(st1, ast.Assign) and len(st1.targets) == 1 and isinstance(st1.targets[0], ast.Name)):
             raise AnalysisError('check: result of structure_and_validate_input is not bound to a name')
         SI = st1.targets[0].id
-        r.check(X.m("self.structure_and_validate_input(student_input)", c1) is not None and X.dominates(fi, c1, c4),
-                'check: the input count is validated before grading', 'structure_and_validate_input(student_input) dominates check_math_response',
-                'check_math_response can run without structure_and_validate_input(student_input)', lib.loc(fi, c1))
+        construct = 'check: the input count is validated before grading'
+        arg1 = lib.inline_locals(c1.args[0], fn) if len(c1.args) == 1 and not c1.keywords else None
+        if arg1 is None or not X.mentions(arg1, 'student_input'):
+            r.undecided(construct, 'argument of structure_and_validate_input not recognised: %s' % short(c1), lib.loc(fi, c1))
+        else:
+            r.check(X.dominates(fi, c1, c4), construct, 'structure_and_validate_input(<the submission>) dominates check_math_response',
+                    'a path reaches check_math_response without passing structure_and_validate_input', lib.loc(fi, c1))
         # blank loop
         construct = 'check: blank fields raise MissingInput before grading'
         loops = [l for l in walk_own(fn) if isinstance(l, ast.For) and X.mentions(l.iter, SI)]
@@ -1313,9 +1406,15 @@ def d4_order(ctx, idx):
                                                     'MissingInput', 'format', 'str', 'next', 'any'}))
         else:
             c3 = c3s[0]
-            argok = X.m("self.validate_user_dummy_variable(%s[self.wording['adjective'] + '_variable'])" % SI, c3) is not None
-            r.check(argok and X.dominates(fi, c3, c4), construct, 'dominates check_math_response',
-                    'check_math_response can run before/without validate_user_dummy_variable(<entered variable>)', lib.loc(fi, c3))
+            arg3 = _inline_except(c3.args[0], fn, {SI}) if len(c3.args) == 1 and not c3.keywords else None
+            argok = arg3 is not None and X.any_match(["%s[self.wording['adjective'] + '_variable']" % SI,
+                                                      "%s['%%s_variable' %% self.wording['adjective']]" % SI,
+                                                      "%s['{}_variable'.format(self.wording['adjective'])]" % SI], arg3) is not None
+            if not argok:
+                r.undecided(construct, 'validated value not recognised: %s' % short(c3), lib.loc(fi, c3))
+            else:
+                r.check(X.dominates(fi, c3, c4), construct, 'dominates check_math_response',
+                        'a path reaches check_math_response without passing validate_user_dummy_variable(<entered variable>)', lib.loc(fi, c3))
             if blank is not None:
                 r.check(X.dominates(fi, blank[0], c3), 'check: blank fields are refused before the dummy-variable validation',
                         'blank loop dominates validate_user_dummy_variable',
@@ -1353,6 +1452,18 @@ def _element_exprs(loop, SI):
         if loop.iter.func.attr == 'keys' and isinstance(loop.target, ast.Name):
             out.append(nf.pat("%s[%s]" % (SI, loop.target.id)))
     return out
+
+
+def _inline_except(expr, fn, keep):
+    """lib.inline_locals, but the locals named in `keep` stay as names."""
+    env = {k: v for k, v in lib.local_env(fn).items() if k not in keep}
+    cur = expr
+    for _ in range(4):
+        new = nf.subst(cur, env)
+        if ast.dump(new) == ast.dump(cur):
+            break
+        cur = new
+    return cur
 
 
 def _helpers(r, idx):
@@ -1397,16 +1508,65 @@ def _helpers(r, idx):
     # validate_user_dummy_variable
     fi = idx.func(SB + '.validate_user_dummy_variable')
     ifs = [s for s in walk_own(fi.node) if isinstance(s, ast.If)]
-    taken = [s for s in ifs if any(isinstance(c, ast.Compare) and isinstance(c.ops[0], ast.In) for c in ast.walk(s.test))]
+    taken = [s for s in ifs if any(isinstance(c, ast.Compare) and isinstance(c.ops[0], (ast.In, ast.NotIn)) for c in ast.walk(s.test))]
     construct = 'validate_user_dummy_variable: a name that already has a meaning raises InvalidInput'
+    SCOPES = ('functions', 'random_funcs', 'constants')
+
+    def members(e, w, depth=0):
+        """Is `varname` in the collection denoted by e, given in which of the three scopes it lives?"""
+        if depth > 6:
+            raise X.Unrecognised('collection too deep')
+        if isinstance(e, ast.Attribute) and X.is_name(e.value, 'self') and e.attr in SCOPES:
+            return w[e.attr]
+        if isinstance(e, ast.Call) and isinstance(e.func, ast.Name) and e.func.id in ('set', 'list', 'tuple', 'frozenset', 'sorted') and len(e.args) <= 1:
+            return members(e.args[0], w, depth + 1) if e.args else False
+        if isinstance(e, ast.Call) and isinstance(e.func, ast.Attribute) and e.func.attr == 'keys' and not e.args:
+            return members(e.func.value, w, depth + 1)
+        if isinstance(e, ast.Call) and isinstance(e.func, ast.Attribute) and e.func.attr == 'union':
+            return members(e.func.value, w, depth + 1) or any(members(a, w, depth + 1) for a in e.args)
+        if isinstance(e, ast.Call) and nf.callee_name(e) == 'chain':
+            return any(members(a, w, depth + 1) for a in e.args)
+        if isinstance(e, ast.BinOp) and isinstance(e.op, (ast.BitOr, ast.Add)):
+            return members(e.left, w, depth + 1) or members(e.right, w, depth + 1)
+        if isinstance(e, (ast.Set, ast.List, ast.Tuple)) and not e.elts:
+            return False
+        if isinstance(e, ast.Dict) and all(k is None for k in e.keys):
+            return any(members(v, w, depth + 1) for v in e.values)
+        raise X.Unrecognised('collection `%s` not recognised' % short(e))
+
+    def atom(e):
+        if isinstance(e, ast.Compare) and len(e.ops) == 1 and isinstance(e.ops[0], (ast.In, ast.NotIn)) and X.is_name(e.left, 'varname'):
+            coll = e.comparators[0]
+            pos = isinstance(e.ops[0], ast.In)
+            return lambda w, coll=coll, pos=pos: members(coll, w) == pos
+        return None
     if not taken:
         X.absent(r, construct, 'no membership test exists: functions and constants can be used as summation variable', fi.loc,
                  understood=X.only_calls([fi.node], {'is_valid_variable_name', 'InvalidInput', 'format', 'title'}))
     else:
         st = taken[0]
-        verdict(r, construct, nf.classify("varname in self.functions or varname in self.random_funcs or varname in self.constants", st.test),
-                lib.loc(fi, st), '3 scopes', expected='varname in self.functions or varname in self.random_funcs or varname in self.constants',
-                why='a name from the dropped scope is accepted as dummy variable and shadows/deletes that meaning')
+        test = nf.canon(lib.inline_locals(st.test, fi.node))
+        guards = X.Guards(atom)
+        try:
+            f = guards.compile(test)
+            bad = None
+            for w in X.worlds({k: [False, True] for k in SCOPES}):
+                if bool(f(w)) != any(w.values()):
+                    bad = w
+                    break
+        except X.Unrecognised as e_:
+            r.undecided(construct, str(e_), lib.loc(fi, st))
+            bad = 'skip'
+        if bad is None:
+            r.ok(construct, 'refused exactly when the name is a function, a random function or a constant', lib.loc(fi, st))
+        elif bad != 'skip':
+            where_ = [k for k in SCOPES if bad[k]]
+            r.violation(construct, 'a name that is %s is %s: %s' % (
+                'only in self.' + ' / self.'.join(where_) if where_ else 'in none of the three scopes',
+                'accepted as dummy variable' if where_ else 'refused',
+                'it shadows and then deletes that meaning while the sum is evaluated' if where_ else 'every fresh name is refused'),
+                lib.loc(fi, st), expected='varname in self.functions or varname in self.random_funcs or varname in self.constants',
+                found=short(st.test))
         ok, classes = X.body_raises(st.body)
         r.check(ok and classes == {'InvalidInput'}, construct + ' [class]', 'InvalidInput', 'raises %s' % (sorted(classes) or 'nothing'), lib.loc(fi, st))
     wf = [s for s in ifs if any(isinstance(c, ast.Call) and nf.callee_name(c) == 'is_valid_variable_name' for c in ast.walk(s.test))]
@@ -1430,6 +1590,7 @@ def _helpers(r, idx):
         raise AnalysisError('validate_input_positions: set of used positions not recognised')
     Sn = sets[0][1]['_S'].id
     ifs = [s for s in walk_own(fn) if isinstance(s, ast.If)]
+    ifs = [ast.If(test=_inline_except(s_.test, fn, {Ln, Sn}), body=s_.body, orelse=s_.orelse, lineno=s_.lineno) for s_ in ifs]
     consec = [s for s in ifs if any(isinstance(c, ast.Call) and nf.callee_name(c) == 'range' for c in ast.walk(s.test))]
     construct = 'validate_input_positions: positions must be 1..n without gaps'
     set_based = False
@@ -1441,7 +1602,9 @@ def _helpers(r, idx):
         rc = [c for c in ast.walk(t) if isinstance(c, ast.Call) and nf.callee_name(c) == 'range'][0]
         start = rc.args[0] if len(rc.args) >= 2 else ast.Constant(value=0)
         stop = rc.args[1] if len(rc.args) >= 2 else (rc.args[0] if rc.args else None)
-        whole = X.m("%s != set(range(_A, _B))" % Sn, t) is not None or X.m("%s != set(range(_B))" % Sn, t) is not None
+        whole = any(X.m(ptn % {'S': Sn, 'R': rr}, t) is not None for rr in ("set(range(_A, _B))", "set(range(_B))")
+                    for ptn in ("%(S)s != %(R)s", "%(S)s ^ %(R)s", "%(R)s ^ %(S)s", "%(S)s.symmetric_difference(%(R)s)",
+                                "%(R)s.symmetric_difference(%(S)s)", "not %(S)s == %(R)s"))
         if not whole or stop is None or len(rc.args) > 2:
             r.undecided(construct, 'test not recognised: %s' % short(st.test), lib.loc(fi, st))
         else:
@@ -1628,6 +1791,11 @@ MUTANTS = [
 ]
 
 BENIGN = [
+    Benign('reserved-names-as-one-union', IG, "        if varname in self.functions or varname in self.random_funcs or varname in self.constants:",
+           "        if varname in set(self.functions) | set(self.random_funcs) | set(self.constants):"),
+    Benign('gap-test-by-symmetric-difference', IG, "        if used_positions_set != set(range(1, len(used_positions_set) + 1)):", "        if used_positions_set ^ set(range(1, len(used_positions_set) + 1)):"),
+    Benign('check-with-temporaries', IG, "        self.validate_user_dummy_variable(structured_input[self.wording['adjective'] + '_variable'])\n",
+           "        dummy_key = self.wording['adjective'] + '_variable'\n        self.validate_user_dummy_variable(structured_input[dummy_key])\n"),
     Benign('cutoff-key-selected-first', IG, "        if 'fact' in used_funcs or 'factorial' in used_funcs:\n            infty_val = self.config['infty_val_fact']\n        else:\n            infty_val = self.config['infty_val']\n",
            "        infty_key = 'infty_val'\n        if any(name in used_funcs for name in ('fact', 'factorial')):\n            infty_key = 'infty_val_fact'\n        infty_val = self.config[infty_key]\n"),
     Benign('function-set-built-from-a-copy', IG, "        used_funcs = lower_used.functions_used.union(upper_used.functions_used, expression_used.functions_used)\n",
